@@ -21,6 +21,8 @@ From RU Require Import Proofs.C02_JoinAbs Proofs.C02_JoinPath Proofs.C02_Segment
 From RU Require Import Proofs.C02_Ovr Proofs.C02_Reach7.
 From RU Require Import Proofs.C02_File Proofs.C02_FileL1 Proofs.C02_FileCanon.
 From RU Require Import Proofs.C02_FileParse Proofs.C02_FileHost Proofs.C02_FileSet Proofs.C02_Reach8.
+From RU Require Import Proofs.C02_FileOps Proofs.C02_FileJoin Proofs.C02_PathSetter Proofs.C02_FileSetPath Proofs.C02_Reach9.
+From RU Require Model.FilePath Proofs.C20_Path Proofs.C02_FilePathConv.
 Open Scope string_scope.
 Open Scope N_scope.
 Open Scope list_scope.
@@ -1675,6 +1677,195 @@ Example C02_reach_partial7_inhabited :
   /\ m_ok (m_join "file://h.x/a/b?q#f" "#g") "file://h.x/a/b?q#g" = true
   /\ tail_ref (B "?k") && file_tail_op (OQHash (B "#w")) && file_input (B "file:x") = true.
 Proof. exact reach7_example. Qed.
+
+(* ---------- R. file records in histories, second part: the other setters on file records, every join that
+   involves the file scheme, the reach theorem C02_reach_partial8 ---------- *)
+(* R.1  the credential and port setters of both APIs refuse a canonical file record (returned unchanged) *)
+Theorem C02_file_setters_refused : forall dbg hp hpo hd u o u', FileCanon hp hd u -> file_refused_op o = true ->
+  apply_op dbg hp hpo hd u o = Some u' -> u' = u.
+Proof. exact file_refused. Qed.
+Check C02_file_setters_refused : forall dbg hp hpo hd u o u', FileCanon hp hd u ->
+  match o with OSetPort _ | OSetPassword _ | OSetUsername _ | OQUsername _ | OQPassword _ | OQPort _ => true | _ => false end = true ->
+  apply_op dbg hp hpo hd u o = Some u' -> u' = u.
+Print Assumptions C02_file_setters_refused.
+
+(* R.2  Url::set_scheme (quirks protocol is set_scheme on the text before ':') on a canonical file record, for every
+   argument: the record is unchanged (no host, or the change is refused) or becomes a canonical record of a special
+   non-file scheme (the record had a host) *)
+Theorem C02_set_scheme_File : forall dbg hp hpo hd u x u' s, FileCanon hp hd u ->
+  set_scheme dbg u x = Some (u', s) -> nlen (ser u') <= U32_MAX_P -> u' = u \/ Canon hp hpo hd u'.
+Proof. exact set_scheme_File. Qed.
+Print Assumptions C02_set_scheme_File.
+
+(* Url::set_host(None) on a canonical file record: the host text goes, the result is canonical (no length bound needed) *)
+Theorem C02_set_host_none_File : forall dbg hp hpo hd u u' s, FileCanon hp hd u ->
+  set_host dbg hp hpo hd u None = Some (u', s) -> FileCanon hp hd u'.
+Proof. exact set_host_none_File. Qed.
+Print Assumptions C02_set_host_none_File.
+
+Theorem C02_step_file8 : forall dbg hp hpo hd, HostOK2 hp hpo hd -> forall u o u', FileCanon hp hd u -> file_op8 o = true ->
+  op_args_ok o -> apply_op dbg hp hpo hd u o = Some u' -> nlen (ser u') <= U32_MAX_P -> CanonF hp hpo hd u'.
+Proof. exact step_file8_CanonF. Qed.
+(* file_op8 o = the query / fragment setters of both APIs, the six port and credential setters, OSetScheme, OQProtocol,
+   OSetHost None *)
+Print Assumptions C02_step_file8.
+
+(* the path setters on a canonical file record.  The setter context of the file path loop is the URL-parser context on
+   the text with '?' and '#' escaped (no premise "not the file scheme" any more) *)
+Theorem C02_file_loop_setter : forall dbg ps l ser ss a b hh, usv_list l -> pend_eq a b ->
+  parse_path_loop dbg CSetter STFile ps l ser ss a hh = parse_path_loop dbg CUrlParser STFile ps (qh_sub l) ser ss b hh.
+Proof. exact loop_setter_sub_f. Qed.
+Print Assumptions C02_file_loop_setter.
+
+(* Url::set_path: the record has a host, or the argument starts with '/' or '\' (after tab / LF / CR removal);
+   url::quirks::set_pathname: every argument *)
+Theorem C02_set_path_File : forall dbg hp (hpo : list N -> result host) hd u x u', FileCanon hp hd u -> usv_list x -> has_host u || lead_slash x = true ->
+  set_path dbg u x = Some u' -> nlen (ser u') <= U32_MAX_P -> Known_file_drive u' = false -> FileCanon hp hd u'.
+Proof. exact set_path_File. Qed.
+Check C02_set_path_File : forall dbg hp (hpo : list N -> result host) hd u x u', FileCanon hp hd u -> usv_list x ->
+  has_host u || match inp_next x with Some (c, _) => is_slash_or_bslash c | None => false end = true ->
+  set_path dbg u x = Some u' -> nlen (ser u') <= U32_MAX_P -> Known_file_drive u' = false -> FileCanon hp hd u'.
+Print Assumptions C02_set_path_File.
+
+Theorem C02_q_set_pathname_File : forall dbg hp (hpo : list N -> result host) hd u v u', FileCanon hp hd u -> usv_list v ->
+  q_set_pathname dbg u v = Some u' -> nlen (ser u') <= U32_MAX_P -> Known_file_drive u' = false -> FileCanon hp hd u'.
+Proof. exact q_set_pathname_File. Qed.
+Print Assumptions C02_q_set_pathname_File.
+
+(* outside the premise of C02_set_path_File the merge is different (first segment at path_start: ".." does not remove
+   it); still a fixpoint on the witness *)
+Example C02_file_set_path_no_slash :
+  m_is (m_hist "file:///x" [OSetPath (B "a/../b")]) "file:///a/b" = true
+  /\ m_is (m_hist "file:///x" [OSetPath (B "/a/../b")]) "file:///b" = true
+  /\ file_path_op (file_curl host_display None (B "/x") None None) (OSetPath (B "a/../b")) = false.
+Proof. exact file_set_path_no_slash. Qed.
+
+(* R.3  joins.  A reference with the file scheme does not consult the base when the base is not a file URL or two
+   slashes follow "file:" (any base at all) *)
+Theorem C02_join_file_abs_eq : forall dbg hp hpo hd ovr b input, file_abs_ref b input = true ->
+  parse_url dbg hp hpo hd ovr (Some b) input = parse_url dbg hp hpo hd ovr None input.
+Proof. exact join_file_abs_eq. Qed.
+Print Assumptions C02_join_file_abs_eq.
+
+(* L1 for parse_file with a canonical file base, EVERY remaining input: two slashes, one slash (the base's host is
+   kept), none (empty, query, fragment, path merged with the base's path, drive letter) *)
+Theorem C02_parse_file_base : forall dbg hp hpo hd, HostRT hp hpo hd -> host_above hp hpo hd ->
+  (forall s, hp s <> Ok (HDomain [])) -> host_no_wdl hp hd ->
+  forall ovr ho segs last q0 f0 l u, file_ok hp hd ho segs last q0 f0 -> usv_list l ->
+  parse_file dbg hp hd ovr CUrlParser STFile (Some (file_curl hd ho (path_text segs last) q0 f0)) l = POk u ->
+  Known_file_drive u = false -> FileCanon hp hd u.
+Proof. exact parse_file_base. Qed.
+Print Assumptions C02_parse_file_base.
+
+(* every reference without a scheme or with the file scheme against a canonical file base *)
+Theorem C02_join_file_base : forall dbg hp hpo hd, HostRT hp hpo hd -> host_above hp hpo hd ->
+  (forall s, hp s <> Ok (HDomain [])) -> host_no_wdl hp hd ->
+  forall ovr b input u, FileCanon hp hd b -> usv_list input -> nonfile_input input = false ->
+  parse_url dbg hp hpo hd ovr (Some b) input = POk u -> Known_file_drive u = false -> FileCanon hp hd u.
+Proof. exact join_file_base. Qed.
+Check C02_join_file_base : forall dbg hp hpo hd, HostRT hp hpo hd -> host_above hp hpo hd ->
+  (forall s, hp s <> Ok (HDomain [])) -> host_no_wdl hp hd ->
+  forall ovr b input u, FileCanon hp hd b -> usv_list input -> nonfile_input input = false ->
+  parse_url dbg hp hpo hd ovr (Some b) input = POk u -> Known_file_drive u = false -> FileCanon hp hd u.
+Print Assumptions C02_join_file_base.
+
+(* every join against a canonical file base, whatever the reference (another scheme: the base is not consulted) *)
+Theorem C02_join_file_any : forall dbg hp hpo hd, HostOK2 hp hpo hd -> host_nonempty hp hpo -> host_no_wdl hp hd ->
+  forall ovr b input u, FileCanon hp hd b -> usv_list input ->
+  parse_url dbg hp hpo hd ovr (Some b) input = POk u -> Known_file_drive u = false -> CanonF hp hpo hd u.
+Proof. exact join_file_any. Qed.
+Check C02_join_file_any : forall dbg hp hpo hd, HostOK2 hp hpo hd -> host_nonempty hp hpo -> host_no_wdl hp hd ->
+  forall ovr b input u, FileCanon hp hd b -> usv_list input ->
+  parse_url dbg hp hpo hd ovr (Some b) input = POk u -> Known_file_drive u = false ->
+  Canon hp hpo hd u \/ FileCanon hp hd u.
+Print Assumptions C02_join_file_any.
+
+(* R.4  the reach theorem: every record of a ReachC8 history (C02_Reach9: ReachC7 and every join against a file
+   record, base-free file references against any Reachable4 base, the operations file_op8 on file records) is a
+   fixpoint; RC8_step_file_path adds quirks pathname and Url::set_path (file_path_op) on file records.
+   STILL OUTSIDE ReachC8 and inside Reachable4: on file records path_segments_mut sessions and Url::set_path with an
+   argument without leading slash on a record without a host (on file records the host setters with an argument are
+   outside Reachable4 itself: Known_F_C02_4); what lies behind these open steps. *)
+Theorem C02_reach_partial8 : forall dbg hp hpo hd, HostOK2 hp hpo hd -> host_nonempty hp hpo -> host_no_wdl hp hd -> forall u,
+  ReachC8 dbg hp hpo hd u ->
+  Fixpoint_of_reparse dbg hp hpo hd u /\ wf_b u = true /\ ascii (ser u).
+Proof. exact reach_partial8. Qed.
+Check C02_reach_partial8 : forall dbg hp hpo hd, HostOK2 hp hpo hd -> host_nonempty hp hpo -> host_no_wdl hp hd -> forall u,
+  ReachC8 dbg hp hpo hd u ->
+  parse_url dbg hp hpo hd None None (utf8_lossy (ser u)) = POk u /\ wf_b u = true /\ ascii (ser u).
+Print Assumptions C02_reach_partial8.
+
+Theorem C02_reach_partial8_in_statement : forall dbg hp hpo hd, HostOK2 hp hpo hd -> host_nonempty hp hpo -> host_no_wdl hp hd ->
+  forall u, ReachC8 dbg hp hpo hd u -> Reachable4 dbg hp hpo hd u.
+Proof. exact ReachC8_Reachable4. Qed.
+Print Assumptions C02_reach_partial8_in_statement.
+
+(* ReachC8 is closed under the WHOLE join constructor of Reachable4: every join from a ReachC8 record whose result is
+   outside Known_file_drive is a ReachC8 record (so the gap to Reachable4 lies in R4_step only) *)
+Theorem C02_reach_partial8_join_closed : forall dbg hp hpo hd, HostOK2 hp hpo hd -> host_nonempty hp hpo -> host_no_wdl hp hd ->
+  forall ovr b input u, ReachC8 dbg hp hpo hd b -> usv_list input ->
+  parse_url dbg hp hpo hd ovr (Some b) input = POk u -> Known_file_drive u = false -> ReachC8 dbg hp hpo hd u.
+Proof. exact ReachC8_join_closed. Qed.
+Print Assumptions C02_reach_partial8_join_closed.
+
+Theorem C02_reach_partial8_extends : forall dbg hp hpo hd, HostOK2 hp hpo hd -> host_nonempty hp hpo -> host_no_wdl hp hd ->
+  forall u, ReachC7 dbg hp hpo hd u -> ReachC8 dbg hp hpo hd u.
+Proof. exact ReachC7_C8. Qed.
+Print Assumptions C02_reach_partial8_extends.
+
+Theorem C02_reach_partial8_model : forall dbg idna, IdnaOK idna -> forall u,
+  ReachC8 dbg (host_parse idna) host_parse_opaque host_display u ->
+  Fixpoint_of_reparse dbg (host_parse idna) host_parse_opaque host_display u /\ wf_b u = true /\ ascii (ser u).
+Proof. exact reach_partial8_model. Qed.
+Print Assumptions C02_reach_partial8_model.
+
+(* the hypotheses are met: joins of every kind against a file base, a file reference against a non-file base, the
+   new operations on file records, on the host model *)
+Example C02_reach_partial8_inhabited :
+  m_is (m_join "file://h.x/a/b?q#f" "c/../d e") "file://h.x/a/d%20e" = true
+  /\ m_is (m_join "file://h.x/a/b?q#f" "/x/./y?k") "file://h.x/x/y?k" = true
+  /\ m_is (m_join "file://h.x/a/b" "//g.y/z") "file://g.y/z" = true
+  /\ m_is (m_join "file://h.x/a/b" "file:c#g") "file://h.x/a/c#g" = true
+  /\ m_is (m_join "file://h.x/a/b" "\\localhost\z") "file:///z" = true
+  /\ m_is (m_join "file://h.x/a/b" "https://g.y/z") "https://g.y/z" = true
+  /\ m_is (m_join "http://h.x/a/b" "file:c") "file:///c" = true
+  /\ m_is (m_join "http://h.x/a/b" "file://g.y/c") "file://g.y/c" = true
+  /\ m_is (m_hist "file://h.x/a" [OSetPort (Some 8080); OSetUsername (B "u"); OSetPassword (Some (B "p")); OQPort (B "1")]) "file://h.x/a" = true
+  /\ m_is (m_hist "file://h.x/a b?q#f" [OSetScheme (B "https")]) "https://h.x/a%20b?q#f" = true
+  /\ m_is (m_hist "file:///a" [OSetScheme (B "http"); OQProtocol (B "ws:")]) "file:///a" = true
+  /\ m_is (m_hist "file://h.x/a?q" [OSetHost None]) "file:///a?q" = true
+  /\ m_is (m_hist "file://h.x/x" [OSetPath (B "a/../b?c")]) "file://h.x/b%3Fc" = true
+  /\ m_is (m_hist "file:///x" [OSetPath (B "\\a/../b")]) "file:///b" = true
+  /\ m_is (m_hist "file:///x" [OQPathname (B "a/../b#c")]) "file:///b%23c" = true
+  /\ file_abs_ref (file_curl host_display None (B "/a") None None) (B "file://g.y/c")
+     && file_path_op (file_curl host_display None (B "/x") None None) (OSetPath (B "\\a/../b"))
+     && file_op8 (OSetHost None) && file_op8 (OQProtocol (B "ws:")) && file_op8 (OSetPort (Some 8080)) = true.
+Proof. exact reach8_example. Qed.
+
+(* R.5  outside the history quantifier: Url::from_file_path / from_directory_path (unix model, Model/FilePath.v) give
+   canonical file records - hence fixpoints, by C02_FileCanon_fixpoint - when the path has no ".." component and the
+   result is outside Known_file_drive; with a ".." component the result is NOT a fixpoint (F-C02-5) *)
+Theorem C02_from_file_path_File : forall hp hd p u, bytes p -> FilePath.from_file_path p = FilePath.FOk u ->
+  Forall (fun k => k <> [46; 46]) (C20_Path.kept p) -> Known_file_drive u = false -> FileCanon hp hd u.
+Proof. exact C02_FilePathConv.from_file_path_File. Qed.
+Print Assumptions C02_from_file_path_File.
+
+Theorem C02_from_directory_path_File : forall hp hd p u, bytes p -> FilePath.from_directory_path p = FilePath.FOk u ->
+  Forall (fun k => k <> [46; 46]) (C20_Path.kept p) -> Known_file_drive u = false -> FileCanon hp hd u.
+Proof. exact C02_FilePathConv.from_directory_path_File. Qed.
+Print Assumptions C02_from_directory_path_File.
+
+Example C02_from_file_path_inhabited :
+  match FilePath.from_file_path (B "/a/./b c//%2e") with
+  | FilePath.FOk u => list_eqb (ser u) (B "file:///a/b%20c/%252e") && m_fix u && negb (Known_file_drive u)
+             && forallb (fun k => negb (list_eqb k [46; 46])) (C20_Path.kept (B "/a/./b c//%2e"))
+  | _ => false end = true
+  /\ match FilePath.from_directory_path (B "/a/b") with
+     | FilePath.FOk u => list_eqb (ser u) (B "file:///a/b/") && m_fix u | _ => false end = true
+  /\ match FilePath.from_file_path (B "/a/../b") with
+     | FilePath.FOk u => list_eqb (ser u) (B "file:///a/../b") && negb (m_fix u) && negb (Known_file_drive u)
+     | _ => false end = true.
+Proof. exact C02_FilePathConv.from_file_path_example. Qed.
 
 (* ---------- F. every excluded class contains a history that is not a fixpoint ---------- *)
 Theorem C02_F_C03_5_refuted :
